@@ -9,7 +9,8 @@ LEVEL = "proof"
 RULE = ("kinds: mcmc (the real batchie.sampling.sample driving a counting stub MCMCModel and a recording ThetaHolder; grid "
         "b in {0..}, t in {1..}, n in {1..} incl. t=1 and b=0, plus random larger values, random seed / n_chains / chain_index; "
         "the full event trace reset/set_rng(key)/step/add_theta is compared with the model's), vi (stub VIModel, returned list "
-        "length = n mostly), rng (key of the generator handed to the model and its first draws per (seed, n_chains, chain_index)), "
+        "length = n mostly), rng (key of the generator handed to the model and its first draws per (seed, n_chains, chain_index); also "
+        "for a model object that already carries a generator, and for the second sample() call on one object), "
         "malformed (t<=0, b<0, n<=0, index out of range or negative, negative seed, None arguments, pre-filled or short holder, "
         "non-model object).  Non-trivial: every case that issues at least one step or record; distinct by case description.")
 THEOREMS = {
@@ -201,6 +202,20 @@ def run(desc):
                 seen[dj] = cj
         if tuple(handed(nc, ci)[1]) == tuple(_first_draws(np.random.default_rng(np.random.SeedSequence(seed + 1, spawn_key=(ci,))))):
             pred = "stream does not depend on the seed"
+        # the generator depends ONLY on the triple: not on a generator the model object already carries (constructed with
+        # rng=..., or left there by an earlier sample() call on the same object)
+        m = M()
+        m.rng = np.random.default_rng(987654321)
+        batchie.sampling.sample(model=m, results=Holder(1, m.events), seed=seed, n_chains=nc, chain_index=ci, n_burnin=0, thin=1)
+        if _first_draws(m.rng) != ref:
+            pred = "a model that already carries a generator does not get the stream of (seed, n_chains, chain_index)"
+        m = M()
+        cj = (ci + 1) % nc
+        batchie.sampling.sample(model=m, results=Holder(1, m.events), seed=seed + 7, n_chains=nc, chain_index=cj, n_burnin=0, thin=1)
+        m.rng.random(3)
+        batchie.sampling.sample(model=m, results=Holder(1, m.events), seed=seed, n_chains=nc, chain_index=ci, n_burnin=0, thin=1)
+        if _first_draws(m.rng) != ref:
+            pred = "the second sample() call on one model object does not hand it the stream of its own (seed, n_chains, chain_index)"
         return dict(wire=[1, seed, nc, ci], impl=key, pred=pred, features=["rng", "n_chains=1" if nc == 1 else "n_chains>1"], cmp=cmp_result())
 
     if kind == "vi":
